@@ -434,6 +434,7 @@ def c06_11(ctx: Ctx):
 # memoisation of answers that depend on mutable state
 # ----------------------------------------------------------------------------
 
+_CONTAINER_CTORS_EARLY = ("dict", "set", "list", "tuple", "frozenset", "defaultdict")
 _NODE_TYPES = ("gtirb.CodeBlock", "gtirb.DataBlock", "gtirb.ByteBlock", "gtirb.Block", "gtirb.Module", "gtirb.ByteInterval", "gtirb.Section", "gtirb.Symbol", "gtirb.CfgNode",
                "CodeBlock", "DataBlock", "ByteBlock", "ByteInterval")
 
@@ -480,7 +481,8 @@ def gen_memonode(ctx: Ctx):
                 d = src(st.test.comparators[0])
                 for b in st.body:
                     if isinstance(b, ast.Assign) and isinstance(b.targets[0], ast.Subscript) and src(b.targets[0].value) == d and src(b.targets[0].slice) == st.test.left.id \
-                            and any(isinstance(x, ast.Call) for x in ast.walk(b.value)) and st.test.left.id in {y.id for y in ast.walk(b.value) if isinstance(y, ast.Name)}:
+                            and any(isinstance(x, ast.Call) and not (src(x.func).split(".")[-1].lstrip("_")[:1].isupper() or src(x.func).split(".")[-1] in _CONTAINER_CTORS_EARLY) for x in ast.walk(b.value)) \
+                            and st.test.left.id in {y.id for y in ast.walk(b.value) if isinstance(y, ast.Name)}:
                         hit = (st, d, st.test.left.id)
             if hit is None:
                 continue
